@@ -433,8 +433,8 @@ Qed.
 
 Lemma created_dir_modes_length u n : length (created_dir_modes u n) = n.
 Proof.
-  induction n as [|n IH]; [reflexivity|]. destruct n as [|n]; [reflexivity|].
-  change (created_dir_modes u (S (S n))) with (u :: created_dir_modes u (S n)). cbn [length]. now rewrite IH.
+  induction n as [|n IH]; [reflexivity|].
+  change (created_dir_modes u (S n)) with (m_dir :: created_dir_modes u n). cbn [length]. now rewrite IH.
 Qed.
 
 (* the database's own parent directory is always created 0700 *)
@@ -442,30 +442,19 @@ Theorem modes_parent_dir : forall u n, n <> 0%nat -> last (created_dir_modes u n
 Proof.
   intros u n. induction n as [|n IH]; [congruence|]. intros _.
   destruct n as [|n]; [reflexivity|].
-  change (created_dir_modes u (S (S n))) with (u :: created_dir_modes u (S n)).
-  assert (H : created_dir_modes u (S n) <> []).
-  { intro E. apply (f_equal (@length _)) in E. rewrite created_dir_modes_length in E. discriminate. }
-  destruct (created_dir_modes u (S n)) as [|x l] eqn:E; [congruence|].
+  change (created_dir_modes u (S (S n))) with (m_dir :: created_dir_modes u (S n)).
+  change (created_dir_modes u (S n)) with (m_dir :: created_dir_modes u n) in *.
   cbn [last]. cbn [last] in IH. apply IH. discriminate.
 Qed.
 
-(* every directory the library creates is owner-only when at most one level is missing (or the process umask
-   already denies group/other) ... *)
-Theorem modes_dirs_owner_only : forall u n,
-  (n <= 1)%nat \/ owner_only u = true -> forallb owner_only (created_dir_modes u n) = true.
+(* every directory the library creates is owner-only, however many path components were missing and whatever the
+   process umask (since fix: every created ancestor is chmod-ed, not only the last component) *)
+Theorem modes_dirs_owner_only : forall u n, forallb owner_only (created_dir_modes u n) = true.
 Proof.
-  intros u n [H|H].
-  - destruct n as [|[|n]]; [reflexivity|reflexivity|lia].
-  - induction n as [|n IH]; [reflexivity|]. destruct n as [|n]; [reflexivity|].
-    change (created_dir_modes u (S (S n))) with (u :: created_dir_modes u (S n)).
-    cbn [forallb]. rewrite H, IH. reflexivity.
+  intros u n. induction n as [|n IH]; [reflexivity|].
+  change (created_dir_modes u (S n)) with (m_dir :: created_dir_modes u n).
+  cbn [forallb]. rewrite IH. reflexivity.
 Qed.
-
-(* ... and NOT otherwise: with two missing levels and the usual umask 022 the outer directory is created 0755
-   (create_dir_all + chmod of the last component only).  Finding C13/intermediate-directory-default-mode. *)
-Theorem modes_intermediate_dir_refuted : exists u n m,
-  In m (created_dir_modes u n) /\ owner_only m = false.
-Proof. exists 493, 2%nat, 493. split; [left; reflexivity | reflexivity]. Qed.
 
 Theorem modes_sidecars : forall existing m, In (Some m) (sidecar_modes existing) -> m = m_file.
 Proof.
@@ -485,5 +474,5 @@ Example matrix_example :
   verdict_of (open_db 99 None (WithKey 2) (Encrypted 1)) = VErr EWrongKey /\
   verdict_of (open_db 99 None Unencrypted (Encrypted 1)) = VErr ENotADatabase /\
   file_after (open_db 99 None Unencrypted Empty) = Plain /\
-  created_dir_modes 493 2 = [493; 448].
+  created_dir_modes 493 2 = [448; 448].
 Proof. vm_compute. repeat split. Qed.
